@@ -1,5 +1,5 @@
 /- C02: the compile-correctness induction for the statement fragment
-     e ::= literal | symbol | (f e) | (do e ...) | (def x e)
+     e ::= literal | symbol | (f e) | (do e ...) | (upscope e ...) | (def x e)
    (see Compile/SeqCorrect.lean for the statement `Correct2`; cases in SeqCall / SeqDo / SeqDef). -/
 import JanetModel.Compile.SeqDef
 namespace JanetModel.Compile
@@ -100,6 +100,25 @@ theorem ts_correct (hP : P.length < 65536)
         exact Correct2.recur p f0 rest V P (q := q)
           (do_core p f0 rest V P G fuel ih body hT opts { c with cur := q } cq slot0 sc rs pool ps n2 (posOf cur pp) env' envb s s' v
             ht hh hs hp hl hcc hseq hE)
+    | ups body pp hT =>
+      rw [cValue_upscope_o fuel opts ht hh body pp c] at hc
+      obtain ⟨q, hq⟩ := curAt_eq c pp
+      cases hcc : doBody (cValue fuel) opts body (curAt c pp) with
+      | none => rw [hcc] at hc; simp [fin] at hc
+      | some res =>
+        obtain ⟨slot0, cq⟩ := res
+        rw [hcc] at hc
+        simp only [fin, Option.some.injEq, Prod.mk.injEq] at hc
+        obtain ⟨hsl, hc'⟩ := hc
+        subst hsl hc'
+        cases n with
+        | zero => simp [eval] at hsem
+        | succ n2 =>
+          rw [eval_upscope] at hsem
+          rw [hq] at hcc
+          exact Correct2.recur p f0 rest V P (q := q)
+            (doBody_correct p f0 rest V P G fuel ih body hT opts { c with cur := q } cq slot0 sc rs pool ps n2 (posOf cur pp) env env' s s' v
+              ht hh hs hp hl htop hcc hsem hE)
     | deff x ve pp hGx hTv =>
       rw [cValue_def_o fuel opts ht hh x ve pp c] at hc
       obtain ⟨q, hq⟩ := curAt_eq c pp
